@@ -1015,7 +1015,10 @@ def coarse_container(S, tag=""):
     n = S.int("n" + tag)
     S.assume(n >= 0)
     objs = ObjSeq("RefinementObjectSingleDimension", n, dict(coarsening_level=S.array("coarsening" + tag, I, I), levels=[S.array("l0" + tag, I, I), S.array("l1" + tag, I, I)]))
-    return Obj("RefinementContainer", dict(refinementObjects=objs, dim=1, startNewObjects=S.int("startNewObjects" + tag), searchPosition=S.int("searchPosition" + tag)))
+    npop = S.int("pop.len" + tag)
+    S.assume(npop >= 0)
+    return Obj("RefinementContainer", dict(refinementObjects=objs, dim=1, startNewObjects=S.int("startNewObjects" + tag), searchPosition=S.int("searchPosition" + tag),
+                                           popArray=Seq("list", None, npop, S.array("popArray" + tag, I, I))))     # intervals scheduled for removal in this step: any number, also none
 
 
 def deepest_level(objs, j):
